@@ -41,6 +41,23 @@ HOOK_NAMES = [
 ]
 
 
+# Evidence floors: a run is evidence only if every stream really executed.  Numbers = about 65 % of what a
+# complete run produces (quick seed 1: udp 78 k, fwd 82 k, ctl 32 k, sched 87 k, pipe 24 k op lines, 300 UDP-path
+# rounds, 1 080 writer rendezvous, 417 coalesce-uncached scenarios; thorough about 33 times that).
+FLOORS = {
+    "quick": {"lines": {"c09udp": 50000, "c09fwd": 55000, "c09ctl": 20000, "c09sched": 60000, "c09pipe": 16000},
+              "counters": {"c09ctl": {"ctl.udppath.rounds-completed": 295, "ctl.writers.rendezvous": 500,
+                                      "ctl.scenario.coalesce-uncached": 200, "ctl.scenario.optimistic-cache": 300},
+                           "c09pipe": {"pipe.recv.held": 1000, "pipe.cancel": 400, "pipe.closeswap": 600},
+                           "c09sched": {"sched.at.e2r": 150, "sched.at.b5": 400}}},
+    "thorough": {"lines": {"c09udp": 1700000, "c09fwd": 1600000, "c09ctl": 700000, "c09sched": 1900000, "c09pipe": 560000},
+                 "counters": {"c09ctl": {"ctl.udppath.rounds-completed": 1480, "ctl.writers.rendezvous": 15000,
+                                         "ctl.scenario.coalesce-uncached": 7000, "ctl.scenario.optimistic-cache": 10000},
+                              "c09pipe": {"pipe.recv.held": 40000, "pipe.cancel": 15000, "pipe.closeswap": 25000},
+                              "c09sched": {"sched.at.e2r": 6000, "sched.at.b5": 15000}}},
+}
+
+
 def hooks_present():
     """The schedule-replay tie needs the verif-tagged yield points (commit a7e5501)."""
     try:
@@ -224,8 +241,15 @@ def run(ctx):
                         "history": lo[start:ln], "replay": "VERIF_SEED=%d ./check C09 %s" % (ctx.seed, ctx.tier)})
         n_inc = sum(1 for op in lo if op.startswith("X inconclusive"))
         if n_inc:
-            inconclusive[name] = inconclusive.get(name, 0) + n_inc
-            ctx.say(f"NOTE {name}: {n_inc} history(ies) abandoned as inconclusive (goroutines of the real code not scheduled within the budget); not counted as evidence either way")
+            ctx.say(f"NOTE {name}: {n_inc} attempt(s) at a history abandoned (budget expired) and retried")
+        for i, (op, im) in enumerate(zip(lo, li)):
+            if op.startswith("H hang"):
+                start = i
+                while start > 0 and " reset" not in lo[start][:12]:
+                    start -= 1
+                ctx.report(f"the real code does not progress: {op[7:]} ({im}); the model can always take the next step here "
+                           f"(every waiter is woken, every call returns)",
+                           {"stream": name, "stuck_point": op, "history": lo[start:i + 1]})
         total += len(lo) - n_inc
         for op in lo:
             if " reset" not in op[:10] and not op.startswith("X "):
@@ -236,17 +260,53 @@ def run(ctx):
             stats_all[name] = stt["counters"]
             ctx.samples += (stt.get("samples") or [])[:2]
         ctx.samples += lo[1:3]
+    # abandoned attempts (retried), hangs, and what could not be recovered
+    unrecovered = {}
     for name, cnt in stats_all.items():
         for k, v in cnt.items():
-            if k.endswith("udppath.inconclusive") and v:
-                inconclusive["c09ctl.udppath"] = v
-    ctx.cov["inconclusive_histories"] = inconclusive or {}
+            if k.endswith("abandoned-attempt") and v:
+                inconclusive[name + ":" + k] = v
+            if k.endswith("inconclusive-unrecovered") and v:
+                unrecovered[name + ":" + k] = v
+    ctx.cov["inconclusive_histories"] = {"abandoned_attempts_retried": inconclusive, "unrecovered": unrecovered}
     ctx.cov["input_distribution"] = stats_all
     ctx.cov["client_replies_checked"] = n_replies
     ctx.assumptions = [
         "interleaving granularity of the controller model: arrival / upstream exchange / wake-up of each client (the code between these blocking points runs without yielding to the harness)",
         "DoH/DoQ/DoTLS transports are not executed (they reach the controller through the same ForwardDNS contract)",
     ]
+    lines = {k: v["lines"] for k, v in ctx.cov.get("streams", {}).items()}
+    short = []
+    fl = FLOORS.get(ctx.tier, FLOORS["quick"])
+    for name, m in fl["lines"].items():
+        if name in lines and lines[name] < m:
+            short.append(f"{name}: {lines[name]} op lines compared, floor {m}")
+        if name not in lines and not (name in ("c09sched", "c09pipe") and not sched_bin):
+            short.append(f"{name}: stream did not run")
+    for name, cs in fl["counters"].items():
+        for k, m in cs.items():
+            if name in stats_all and stats_all[name].get(k, 0) < m:
+                short.append(f"{name}: {k} = {stats_all[name].get(k, 0)}, floor {m}")
+    for k, v in unrecovered.items():
+        short.append(f"{k} = {v} (histories abandoned at different points on every retry: the machine is not scheduling the harness)")
+    ctx.cov["floors"] = {"tier": ctx.tier, "unmet": short}
+    test_budget = os.environ.get("VERIF_C09_BUDGET_MS")
+    if short and not ctx.violations and not ctx.proof_failures:
+        # not enough of the real code was executed for this run to be evidence of anything: an error of the run,
+        # neither OK nor VIOLATION; the evidence file of record is left untouched
+        ctx.say("NO-EVIDENCE property=C09: " + "; ".join(short))
+        return 2
+    saved = None
+    ev_path = os.path.join(os.path.dirname(os.path.dirname(os.path.abspath(__file__))), "evidence", "C09.json")
+    if test_budget and os.path.exists(ev_path):
+        saved = open(ev_path, "rb").read()  # a run with a shortened budget tests the mechanism, it is not evidence of record
+    rc = _finish(ctx, total, distinct)
+    if saved is not None:
+        open(ev_path, "wb").write(saved)
+    return rc
+
+
+def _finish(ctx, total, distinct):
     return ctx.finish(
         rule="one op = one line of a history (U: push/fwd on a pooled UDP socket; F: a call or an atomic step of the forwarder entry; "
              "C: arrive/refuse/resolve/wake/evict of a client of the controller; P: an event on a pipelined connection); "
